@@ -89,7 +89,12 @@ def run_property(mod, tier):
         # the model no longer describes the code. Is there an input among them
         # on which the property itself fails (already in failures)? Otherwise
         # report the broken correspondence.
-        failing_ids = set(f[2]["case"]["id"] for f in failures)
+        # (a failure that is a recorded known finding explains nothing: on the unchanged tree the model
+        # agrees with the implementation on those inputs too)
+        known_sigs = [k for k in load_known() if k["property"] == mod.ID and k.get("status") == "known"]
+        def is_known(sig):
+            return any(k["signature"] == sig or (k.get("signature_prefix") and sig.startswith(k["signature_prefix"])) for k in known_sigs)
+        failing_ids = set(f[2]["case"]["id"] for f in failures if not is_known(f[0]))
         if not any(c["id"] in failing_ids for c, _, _ in mismatches):
             if getattr(mod, "MISMATCH_IS_FAILURE", False):
                 c, m, i = min(mismatches, key=lambda x: len(x[0]["hex"]))
